@@ -125,7 +125,7 @@ func TimeBasedRangeQueries[C TimeBasedCursor[C]](after, before *C, atOrAfterTime
 		if inTimeRange(afterTime) {
 			queries = append(queries, TimeBasedRangeQuery{afterTime, afterTime, 0})
 		}
-		if t := time.Unix(0, afterTime.UnixNano()+1); t.After(middle.MinTime) {
+		if t := afterTime.Add(time.Nanosecond); t.After(middle.MinTime) {
 			middle.MinTime = t
 		}
 	}
@@ -135,7 +135,7 @@ func TimeBasedRangeQueries[C TimeBasedCursor[C]](after, before *C, atOrAfterTime
 		if (after == nil || !(*after).Time().Equal(beforeTime)) && inTimeRange(beforeTime) {
 			queries = append(queries, TimeBasedRangeQuery{beforeTime, beforeTime, 0})
 		}
-		if t := time.Unix(0, beforeTime.UnixNano()-1); t.Before(middle.MaxTime) {
+		if t := beforeTime.Add(-time.Nanosecond); t.Before(middle.MaxTime) {
 			middle.MaxTime = t
 		}
 	}
